@@ -154,6 +154,10 @@ def run_oracle_case(w, rng, policy, case, stats, n_values=2):
     root = qo.resolve_root(w, roottok)
     st, U = qo.call(fname, root, sel=sel, rec=rec, key=key)
     vals = [qo.value_of(fname, e, key, root) for e in U] if st == 'ok' else []
+    if fname in qo.HIER and st == 'ok' and U and isinstance(root, qo.HRef):
+        # below a reference the names are relative to it: patterns built from the FULL names of some results must
+        # then select nothing that the relative names do not select
+        vals = vals + [e.name for e in rng.sample(U, min(2, len(U)))]
     patsets = qo.derive_patterns(rng, vals, n_values) if qo.FUNCS[fname][2] else []
     if patsets and key == 'EDIF.identifier' and getattr(w, 'extra_patterns', None):
         # identifiers of elements whose creation was refused earlier: nothing carries them
@@ -175,10 +179,34 @@ def process_world(args):
         stats['objects_%s' % ('<40' if len(w.objs) < 40 else '40-99' if len(w.objs) < 100 else '100-249' if len(w.objs) < 250 else '250+')] += 1
         res['stage_bad'] = qc.check_stage(w, rng, policy, nstage, stats)
         res['enum_bad'] = qe.check_enum(w, ops, random.Random('%d/query/enum/%d' % (seed, c)), policy, nenum, stats)
-        for case in oracle_cases(w, rng, frac):
+        cases1 = oracle_cases(w, rng, frac)
+        for case in cases1:
             for f in run_oracle_case(w, rng, policy, case, stats):
                 f['signature'] = signature(f)
                 res['fails'].append(f)
+        # ---- the same queries again after value edits: elements keep their place, child counts are
+        #      unchanged, the values under the queried keys change (set / set where absent / deleted /
+        #      renamed). The result for a pattern is defined by the values NOW; anything a query path kept
+        #      from the first round (scan index, name map) must not show. Model side: the driver
+        #      rebuilds the netlist from the extended op history.
+        n_pre = len(ops)
+        rng2 = random.Random('%d/query/edits/%d' % (seed, c))
+        n_edits = query_nets.edit_values(w, ops, rng2)
+        stats['value_edits'] += n_edits
+        if n_edits:
+            stats['netlists_requeried_after_edits'] += 1
+            for d in qc.check_stage(w, rng2, policy, max(8, nstage // 2), stats):
+                res['stage_bad'].append(dict(d, after_edits=dict(n_pre=n_pre)))
+            for d in qe.check_enum(w, ops, random.Random('%d/query/enum2/%d' % (seed, c)), policy, max(40, nenum // 3), stats):
+                res['enum_bad'].append(dict(d, after_edits=dict(n_pre=n_pre)))
+            for case in cases1:
+                if not qo.FUNCS[case[0]][2]:
+                    continue
+                stats['oracle_after_edits'] += 1
+                for f in run_oracle_case(w, rng2, policy, case, stats):
+                    f['after_edits'] = dict(n_pre=n_pre)
+                    f['signature'] = signature(f)
+                    res['fails'].append(f)
         if not qo.lookups_registered():
             res['fails'].append(dict(clause='harness', function='-', root_kind='-', signature='unclassified|lookup-not-restored'))
     finally:
@@ -309,8 +337,23 @@ def kernel_crosscheck_enum(rng, n, stats):
 def replay_oracle(ops, case, stats=None):
     """case: dict(function, root, selection, recursive, key, pats, is_case, is_re, policy, shape)"""
     stats = stats if stats is not None else collections.Counter()
-    w = query_nets.rebuild(ops)
+    ae = case.get('after_edits')
+    w = query_nets.rebuild(ops[:ae['n_pre']] if ae else ops)
     try:
+        if ae:
+            # a session: the same query (unfiltered, then every value exactly, lookups registered and not)
+            # BEFORE the value edits ops[n_pre:], then the edits, then the case
+            root = qo.resolve_root(w, case['root'])
+            has_key = qo.FUNCS[case['function']][3]
+            kk = case.get('key') if has_key else None
+            st, U = qo.call(case['function'], root, sel=case.get('selection'), rec=case.get('recursive'), key=kk)
+            vals = sorted(set(str(qo.value_of(case['function'], e, case.get('key'), root)) for e in U)) if st == 'ok' else []
+            for v in (vals[:8] + list(case.get('pats') or []))[:12]:
+                qo.call(case['function'], root, [v], kk, True, False, case.get('selection'), case.get('recursive'))
+                with qo.LookupOff():
+                    qo.call(case['function'], root, [v], kk, True, False, case.get('selection'), case.get('recursive'))
+            for op in ops[ae['n_pre']:]:
+                w.apply(op)
         patsets = [(case['pats'], case.get('is_case', True), case.get('is_re', False), case.get('shape', 'replay'))] if case.get('pats') is not None else []
         fails = qo.check_case(w, case['function'], case['root'], case.get('selection'), case.get('recursive'),
                               case.get('key'), patsets, case.get('policy', 'DEFAULT'), stats)
@@ -325,6 +368,9 @@ def shrink_failure(ops, f):
     """fewer patterns, then fewer (non-creating) ops, keeping the same signature"""
     case = dict((k, f.get(k)) for k in ('function', 'root', 'selection', 'recursive', 'key', 'pats', 'is_case', 'is_re', 'policy', 'shape'))
     sig = f['signature']
+    if f.get('after_edits'):
+        # a query session (queries, value edits, queries): the op history is kept whole (the split point counts ops)
+        return ops, dict(case, after_edits=f['after_edits'])
 
     def still(ops_, case_):
         try:
@@ -695,13 +741,20 @@ def assumptions():
         'registered lookup and with the lookups deregistered (C13_lookup_hypothesis_for_scanned_keys)',
         'the enumeration theorems assume the structural invariants QWF (C01/C02 invariants, well-kinded ids; hold in every state reached by '
         'editing calls: C13_reachable_states) and speak about runs that end within the fuel (WOk); that some fuel suffices is proved for '
-        'get_netlists / get_ports / get_pins in every such state and for get_instances / get_definitions when the design hierarchy is acyclic '
-        '(C13_get_*_terminates); not proved for get_libraries, get_cables, get_wires (their walks rely on visited sets)',
-        'get_cables / get_wires with selection ALL (cross-hierarchy closure): the enumeration is modelled and compared with the implementation '
-        'on every run, but only the clauses that do not depend on it are proved (no duplicates, pattern = filter of unfiltered, pattern order, '
-        'fast lookup = scan, callback on top); for INSIDE / OUTSIDE / BOTH the enumeration is proved exact (C13_get_cables, C13_get_wires)',
-        'get_libraries(instance, selection=OUTSIDE, recursive=True): the code ignores recursive; the model follows the code and the theorem '
-        'excludes exactly that case (C13_get_libraries_refuted, C13_get_libraries_instance_outside)',
+        'get_netlists / get_ports / get_pins in every such state and for get_instances / get_definitions / get_libraries / get_cables / '
+        'get_wires (every selection, ALL included) when the design hierarchy is acyclic (C13_get_*_terminates; the walks with visited sets '
+        'by a finite-universe measure on the unmarked identifiers)',
+        'get_cables / get_wires with selection ALL (cross-hierarchy closure): specified as the closure of wire_adj from the wires at the pins '
+        'the root leads to and proved exact for one root of any kind (C13_get_wires_all, C13_get_cables_all, C13_get_cables_all_candidates); '
+        'for a collection of roots under ALL: soundness (C13_get_wires_all_sound) and the enumeration-independent clauses; compared with the '
+        'implementation on every run',
+        'the five hierarchical queries: the candidate enumeration is the hier engine\'s (C11/C12); here the filter law over the references found '
+        '(C13_hier_filters_unfiltered), tied by the stage request H over roots of every kind and every selection, and by the oracle',
+        'query sessions: every generated netlist is queried, then the values under the queried keys are edited in place (no element added or '
+        'removed), then the same oracle cases and fresh correspondence cases are run again (the model side rebuilds the netlist from the '
+        'extended history); a replay file of such a failure carries after_edits.n_pre and re-runs the first round before the edits',
+        'get_libraries(instance, selection=OUTSIDE, recursive=True) ignored recursive; repaired in the code, the model follows and the '
+        'enumeration theorem holds without exclusion (C13_get_libraries_full_holds; former witness corpus/query/w3-*.json, expect_result 1,12)',
     ]
 
 
